@@ -16,10 +16,11 @@ CLAIMS = {
     "C13": dict(
         technique="Coq proof (induction over both passes of handle_operations) over an executable model; differential correspondence with the real handle_operations and public API; spec-level linearizability oracle",
         text="Theorems batch_accounting (every op of a batch answered exactly once; size changes by successful pushes minus pops; mark = size after every batch) "
-             "and pop_fails_only_when_empty are proved for every queue state and every batch. The model (both passes, heapify, reheap) is compared with the real "
-             "handle_operations on the exact data array after every batch; a brute-force priority-queue linearizability oracle decides violations.",
+             "and pop_fails_only_when_empty are proved for every queue state and every batch; exception isolation (a throwing element copy / assignment is answered to its own operation, "
+             "queue and other results identical to the batch without it) is proved for both passes. The model (both passes, heapify, reheap, faults) is compared with the real "
+             "handle_operations on the exact data array after every batch; a brute-force priority-queue linearizability oracle decides violations. Defect found and repaired (fix: 60f5e0e).",
         note="Partial: the heap-order invariant (a successful pop returns a maximum) is not yet a theorem — it is checked by the oracle on every compared case. "
-             "Not modelled: aggregator CAS/handler election, throwing element copies (the unguarded pop-side assignment is a recorded defect, see DESIGN.md 8(d)).",
+             "Not modelled: aggregator pending-stack CAS / handler election.",
         ref="4/C13"),
     "C08": dict(
         technique="Coq proof of an inductive invariant over all interleavings (N threads) of an access-level small-step model; step-level correspondence with the real lock under a deterministic atomic-access gate",
